@@ -46,16 +46,16 @@ SPEC = dict(
         "absent/garbage `type` is outside the property text; the model and the harness still agree on it (stream error + "
         "disconnect when no extension claims the stanza)",
     ],
-    level_text="Theorems: lifting lemma for every extension list (request_answered_once, response_never_answered); exact row "
-               "table for all 32 model rows and every stanza with any number of children (row_good_iff_not_defect); C08 at full "
-               "strength for every set of the managers without defect cells; C08 for every set of bundled managers outside the "
-               "listed defect cells (partial); every defect cell is a violation (C08_fails_at_every_defect_cell) with 37 "
-               "concrete witnesses reproduced on the real client; the full statement holds for the handlers as patched by "
-               "fixes/C08-*.diff (C08_holds_after_fixes; driver argument `fixed`); generated handler-site and default-set tables equal the "
-               "model's. Model tied to the real client by an exhaustive cell-by-cell correspondence.",
+    level_text="Theorems: lifting lemma for every extension list (request_answered_once, response_never_answered); every "
+               "bundled handler (32 model rows) is good at every stanza with any number of children (every_row_good); C08_holds: "
+               "for every set and order of bundled managers and every stanza, get/set => exactly one reply with the same id to the "
+               "sender, result/error => none (C08_requests, C08_responses spell it out); generated handler-site, claim-predicate "
+               "and default-set tables equal the model's. Model tied to the real client by an exhaustive cell-by-cell "
+               "correspondence; the 37 witness cells that failed before the repo fixes are replayed first.",
     level_note="Proved about the hand-written model; model-to-code tie is differential over the enumerated cell space "
-               "(exhaustive in type x from x payload catalogue, seeded in spellings). The full statement is FALSE on today's "
-               "code (9 managers swallow requests or answer responses): proved as C08_defect_* and recorded as known findings.",
+               "(exhaustive in type x from x payload catalogue, seeded in spellings). Nine managers violated the property until "
+               "repo commits 28afc7a 318b7cf 1833c1a 29beb7d 88fc5c1 daa6e10 7916dee e597fe7 af7bef7 (known_findings.json: fixed); "
+               "their oracle keys are kept, a recurrence is a violation.",
     design_ref="5.8",
     technique="Lean 4: chain-lifting lemma + per-handler case analysis over an abstract DOM; translator for handler sites; "
               "model/implementation correspondence on the real QXmppClient",
